@@ -193,8 +193,12 @@ pub fn missing_some(data: &Value, args: &Vec<&Value>) -> Result<Value, Error> {
             // since they aren't valid Object or Array keys in JSON.
             KeyType::Null => prev_present_count,
             _ => {
-                if get_key(data, parsed_key).is_none() && !missing_keys.contains(key) {
-                    missing_keys.push((*key).clone());
+                if get_key(data, parsed_key).is_none() {
+                    // A missing key is never counted as present, however
+                    // many times it is listed; it is reported once.
+                    if !missing_keys.contains(key) {
+                        missing_keys.push((*key).clone());
+                    }
                     prev_present_count
                 } else {
                     prev_present_count + 1
